@@ -14,7 +14,7 @@ import itertools
 import math
 import operator
 import re
-from typing import NamedTuple
+from typing import Iterator, NamedTuple
 
 import numpy
 
@@ -82,6 +82,51 @@ class Buffer:
         self.labels[self.cursor:stop] = [label] * len(items)
         self.rows[self.cursor:stop] = items
         self.cursor = stop
+
+
+@dataclasses.dataclass(frozen=True)
+class Layout:
+    kind: str
+    dims: tuple
+    shape: tuple = ()
+
+    @property
+    def rank(self):
+        return len(self.dims)
+
+
+class Names(NamedTuple):
+    x: object
+    y: object
+
+
+def _split_names(attr: str) -> Names:
+    x, y = attr.split()[:2]
+    return Names(x, y)
+
+
+def _layout_for(kind, sizes) -> Layout:
+    if not sizes:
+        return Layout(kind=kind, dims=())
+    return Layout(kind=kind, dims=tuple(sizes), shape=tuple(sizes.values()))
+
+
+def _pairs(rows) -> 'Iterator[Pair]':
+    for i, row in enumerate(rows):
+        yield Pair(first=i, second=list(row))
+
+
+class NamesHolder:
+    def __init__(self, attr):
+        self.attr = attr
+
+    @property
+    def _names(self) -> Names:
+        return _split_names(self.attr)
+
+    # normalise_record_reads: a field of an annotated property
+    def second_name(self):
+        return self._names.y, self._names.x
 
 
 _KEYS = ('edge_node', 'edge_face')
@@ -321,6 +366,21 @@ def record_result(indexes):
         return Pair(first=None, second=[])
     lowest, kept = unpack(indexes)
     return lowest, kept
+
+
+def record_fields(kind, sizes):
+    layout = _layout_for(kind, sizes)
+    if layout.rank > 1:
+        return layout.kind, list(layout.dims), layout.shape
+    return layout.kind, layout.rank
+
+
+def record_call_field(attr):
+    return _split_names(attr).y
+
+
+def record_iteration(rows):
+    return [(pair.first, len(pair.second)) for pair in _pairs(rows)], [p.second for p in _pairs(rows)]
 
 
 def record_object(batches):
@@ -998,6 +1058,10 @@ CASES = {
     'quantifier_polarity': [([1, 2], {1, 2}), ([1, 3], {1}), ([], set())],
     'comprehension_filters': [([1, 2, 4, 12, -2],), ([],)],
     'record_result': [([3, 1, 2],), ([],)],
+    'record_fields': [('face', {'y': 2, 'x': 3}), ('node', {'n': 4}), ('edge', {})],
+    'record_call_field': [('lon lat',), ('lon lat z',), ('lon',)],
+    'record_iteration': [([[1, 2], [3]],), ([],)],
+    'NamesHolder.second_name': [(NamesHolder('a b'),), (NamesHolder('a'),)],
     'record_object': [([('a', [1, 2]), ('b', [3])],), ([],)],
     'procedure_with_early_exit': [([1, -1, None, -3], []), ([1, 2], []), ([], [])],
     'unchanged_return': [(numpy.array([1, 2, 3]), 0), (numpy.array([1, 2, 3]), 1)],
